@@ -130,7 +130,7 @@ func c06() []*Ob {
 				fields := []string{"Min", "Max", "Sum", "Total", "NotExists", "Samples"}
 				if fn := c.Fn("storeapi.buildSearchResponse"); fn != nil {
 					for _, f := range fields {
-						if len(InstrsIn(fn, FieldLoad("seq.SamplesContainer", f))) > 0 {
+						if Current.Has(fn, FieldLoad("seq.SamplesContainer", f)) {
 							c.Site(fn.Pos(), "buildSearchResponse reads SamplesContainer.%s", f)
 						} else {
 							c.Violation("fields:buildSearchResponse:"+f, fn.Pos(), "the store's response drops SamplesContainer.%s: the proxy merges summaries without it", f)
@@ -155,31 +155,31 @@ func c06() []*Ob {
 						c.Violation("pair:units:bin-ts:store", fn.Pos(), "the store no longer converts a bin's MID with timestamppb.New(mid.Time()): hand-written second/nanosecond arithmetic and the proxy's AsTime().UnixMilli() disagree on sub-second bins")
 					}
 					for _, f := range []string{"Total", "Histogram", "Aggs", "IDs"} {
-						if len(InstrsIn(fn, FieldLoad("seq.QPR", f))) == 0 {
+						if !Current.Has(fn, FieldLoad("seq.QPR", f)) {
 							c.Violation("fields:buildSearchResponse:QPR."+f, fn.Pos(), "the store's response drops QPR.%s", f)
 						}
 					}
 				}
 				if fn := c.Fn("proxy/search.responseToQPR"); fn != nil {
 					for _, f := range fields {
-						if len(InstrsIn(fn, FieldStore("seq.SamplesContainer", f))) > 0 {
+						if Current.Has(fn, FieldStore("seq.SamplesContainer", f)) {
 							c.Site(fn.Pos(), "responseToQPR restores SamplesContainer.%s", f)
 						} else {
 							c.Violation("fields:responseToQPR:"+f, fn.Pos(), "the proxy does not restore SamplesContainer.%s from the store's response", f)
 						}
 					}
-					okMs := len(CallsIn(fn, Callee("(*google.golang.org/protobuf/types/known/timestamppb.Timestamp).AsTime"))) > 0 && len(CallsIn(fn, Callee("(time.Time).UnixMilli"))) > 0
+					okMs := Current.HasCall(fn, Callee("(*google.golang.org/protobuf/types/known/timestamppb.Timestamp).AsTime")) && Current.HasCall(fn, Callee("(time.Time).UnixMilli"))
 					if okMs {
 						c.Site(fn.Pos(), "bin timestamps are read back with AsTime().UnixMilli()")
 					} else {
 						c.Violation("pair:units:bin-ts:proxy", fn.Pos(), "the proxy no longer converts bin timestamps with AsTime().UnixMilli()")
 					}
-					if len(InstrsIn(fn, FieldStore("seq.AggregatableSamples", "NotExists"))) == 0 {
+					if !Current.Has(fn, FieldStore("seq.AggregatableSamples", "NotExists")) {
 						c.Violation("fields:responseToQPR:AggregatableSamples.NotExists", fn.Pos(), "the proxy drops the aggregation's NotExists count")
 					}
 				}
 				if fn := c.Fn("(seq.MID).Time"); fn != nil {
-					if len(CallsIn(fn, Callee("time.UnixMilli"))) > 0 {
+					if Current.HasCall(fn, Callee("time.UnixMilli")) {
 						c.Site(fn.Pos(), "MID.Time() is time.UnixMilli(mid)")
 					} else {
 						c.Violation("pair:units:MID.Time", fn.Pos(), "MID.Time() no longer interprets the MID as Unix milliseconds")
@@ -187,20 +187,20 @@ func c06() []*Ob {
 				}
 				if fn := c.Fn("(*seq.SamplesContainer).Merge"); fn != nil {
 					for _, f := range []string{"Min", "Max", "Sum", "Total", "NotExists"} {
-						if len(InstrsIn(fn, FieldStore("seq.SamplesContainer", f))) > 0 {
+						if Current.Has(fn, FieldStore("seq.SamplesContainer", f)) {
 							c.Site(fn.Pos(), "Merge updates %s", f)
 						} else {
 							c.Violation("fields:SamplesContainer.Merge:"+f, fn.Pos(), "SamplesContainer.Merge does not fold %s", f)
 						}
 					}
-					if len(CallsIn(fn, Callee("(*seq.SamplesContainer).InsertSample"))) > 0 {
+					if Current.HasCall(fn, Callee("(*seq.SamplesContainer).InsertSample")) {
 						c.Site(fn.Pos(), "Merge folds Samples")
 					} else {
 						c.Violation("fields:SamplesContainer.Merge:Samples", fn.Pos(), "SamplesContainer.Merge does not fold the sample reservoir")
 					}
 				}
 				if fn := c.Fn("(*seq.AggregatableSamples).Merge"); fn != nil {
-					if len(InstrsIn(fn, FieldStore("seq.AggregatableSamples", "NotExists"))) > 0 {
+					if Current.Has(fn, FieldStore("seq.AggregatableSamples", "NotExists")) {
 						c.Site(fn.Pos(), "AggregatableSamples.Merge folds NotExists")
 					} else {
 						c.Violation("fields:AggregatableSamples.Merge:NotExists", fn.Pos(), "AggregatableSamples.Merge drops NotExists")
@@ -208,7 +208,7 @@ func c06() []*Ob {
 				}
 				if fn := c.Fn("seq.MergeQPRs"); fn != nil {
 					for _, f := range []string{"Total", "IDs", "Errors"} {
-						if len(InstrsIn(fn, FieldStore("seq.QPR", f))) > 0 {
+						if Current.Has(fn, FieldStore("seq.QPR", f)) {
 							c.Site(fn.Pos(), "MergeQPRs merges %s", f)
 						} else {
 							c.Violation("fields:MergeQPRs:"+f, fn.Pos(), "MergeQPRs does not merge QPR.%s", f)
